@@ -113,6 +113,12 @@ impl TimeScale {
             Repeat::Times(times) if time > self.duration * (times as u64 + 1) as f32 => {
                 return self.position_ended();
             }
+            // Exactly at the end of the last cycle, hold the end of that cycle explicitly. The remainder
+            // computed below is only zero there if the cycle duration is exactly representable; for e.g.
+            // a 0.1s cycle it is a tiny positive number, which would wrap to the start of a cycle.
+            Repeat::Times(times) if time == self.duration * (times as u64 + 1) as f32 => {
+                (self.duration, times > 0)
+            }
             Repeat::Times(_) | Repeat::Infinite => {
                 // Doing the "simple" modulo arithmetic can produce some unintuitive results, since
                 // the normalized remainder can never be equal to 1.0 at the end of a cycle, it will
